@@ -71,7 +71,7 @@ theorem event_flags (hy : Hyp H c) {s : Sys} (hr : Reach H T c s) (ev : Event) (
     | tick i pi => cases h
     | recv i src0 msg0 pi =>
       obtain ⟨hi, hsrc, hin⟩ := hv
-      unfold consumedBy at h
+      have h : (src, dst, msg) ∈ (if drawsPermutation (s.st i) then [(src0, i, msg0)] else []) := h
       split_ifs at h with hdraw
       swap
       · cases h
